@@ -136,7 +136,8 @@ class C16(Prop):
                 "squeeze", "flatten", "reshape", "reindex_axis", "reindex_like", "sort_axis", "take_axis", "compress_axis",
                 "dropna", "fillna", "setna", "interp_axis", "repeat", "broadcast", "put_copy", "median", "argmax", "rollaxis",
                 "unflatten", "flatten_rev", "flatten_apart", "flatten_insert", "mean_tuple_rev", "sum_tuple_last"]
-    OPS_DROP = ["add", "mul_scalar", "rsub", "eq", "lt", "neg", "stack", "concatenate", "pow"]
+    OPS_DROP = ["add", "mul_scalar", "rsub", "eq", "lt", "neg", "stack", "concatenate", "pow", "stack_one", "concatenate_one",
+                "concatenate_one_x"]
     OPS_AXIS_KEEP = ["axis_slice", "axis_list", "axis_reindex", "axis_take", "axis_sort", "axis_compress", "axis_transpose",
                      "axis_reindex_axisobj", "axis_reindex_axisobj_present", "axis_reindex_like"]
 
@@ -206,6 +207,8 @@ class C16(Prop):
                     "interp_axis": lambda: a.interp_axis([12, 25], axis="x"), "put_copy": lambda: a.put(30, 1.0, axis="x", inplace=False),
                     "add": lambda: a + b, "mul_scalar": lambda: a * 2, "rsub": lambda: 1 - a, "pow": lambda: a ** 2, "eq": lambda: a == b.values,
                     "lt": lambda: a < 1, "neg": lambda: -a, "stack": lambda: da.stack([a, b], axis="s"), "concatenate": lambda: da.concatenate([a, b], axis="y"),
+                    "stack_one": lambda: da.stack([a], axis="s"), "concatenate_one": lambda: da.concatenate([a], axis="y"),
+                    "concatenate_one_x": lambda: da.concatenate([a], axis="x", align=True),
                     "axis_slice": lambda: a.ix[1:], "axis_list": lambda: a[[10, 30]], "axis_reindex": lambda: a.reindex_axis([10, 30, 40], axis="x"),
                     "axis_reindex_axisobj": lambda: a.reindex_axis(Axis(np.array([10, 30, 40]), "x", units="requested"), axis="x"),
                     "axis_reindex_axisobj_present": lambda: a.reindex_axis(Axis(np.array([30, 10]), "x", units="requested")),
